@@ -269,10 +269,73 @@ pub fn child_main(path: &str) -> i32 {
     }
 }
 
+fn tiny(ptype: crate::syntax::PicType, tr: u8, dc: Option<u8>, w: u8) -> Vec<u8> {
+    use crate::syntax::*;
+    let mut hdr = Header::sorenson(0, ptype, Size::Custom8(w, 16), 4);
+    hdr.tr = tr;
+    let n = hdr.mb_dims().map(|(a, b)| a * b).unwrap_or(1);
+    let mb = match dc {
+        Some(v) => {
+            let mut m = Mb::new(MbKind::Intra);
+            for b in 0..6 {
+                m.blocks[b].dc = v;
+            }
+            m
+        }
+        None => Mb::not_coded(),
+    };
+    encode_pic(&Pic { hdr, mbs: vec![mb; n], trailing_zero_bits: 0 })
+}
+
+/// A long history (reference picture, tens of thousands of disposable pictures, then a predicted
+/// picture) run alone and run with another instance decoding between every two of its calls: more
+/// than 2^16 decode calls in the process, so that any process-wide counter wraps.
+fn long_interleaved_suite(n: usize) -> SuiteReport {
+    simple_suite("long_interleaved_histories", false, |acc| {
+        use crate::syntax::PicType;
+        let mut victim_steps: Vec<Step> = vec![Step::Decode(tiny(PicType::I, 3, Some(100), 16))];
+        for k in 0..n {
+            victim_steps.push(Step::Decode(tiny(PicType::D, (k % 251) as u8, if k % 2 == 0 { Some(200) } else { None }, 16)));
+        }
+        victim_steps.push(Step::Decode(tiny(PicType::P, 9, None, 16)));
+        let mut other_steps: Vec<Step> = vec![Step::Decode(tiny(PicType::I, 3, Some(50), 32))];
+        for k in 0..n {
+            other_steps.push(Step::Decode(tiny(if k % 3 == 0 { PicType::D } else { PicType::P }, (k % 7) as u8, if k % 5 == 0 { Some(60 + (k % 100) as u8) } else { None }, 32)));
+        }
+        other_steps.push(Step::Decode(vec![0xFF; 12]));
+        let alone_v = Instance::new(1, &victim_steps).run_all();
+        let alone_o = Instance::new(3, &other_steps).run_all();
+        let mut v = Instance::new(1, &victim_steps);
+        let mut o = Instance::new(3, &other_steps);
+        while !v.done() || !o.done() {
+            v.advance();
+            o.advance();
+        }
+        acc.count_n(2 * n as u64 + 4, 2);
+        for (name, got, want) in [("first", &v.transcript, &alone_v), ("second", &o.transcript, &alone_o)] {
+            if got != want {
+                let at = got.iter().zip(want.iter()).position(|(a, b)| a != b);
+                acc.fail(
+                    json!({"kind":"params","long_interleaved":n}),
+                    format!("the {} of two long histories ({} pictures each) differs when its calls alternate with the other instance's (first difference at call {:?}: {:?} vs {:?} alone)", name, n + 2, at, at.map(|p| got[p].clone()), at.map(|p| want[p].clone())),
+                );
+                return;
+            }
+        }
+        // the last picture of the first history must be the copy of its reference (flat 100)
+        let last = alone_v.last().cloned().unwrap_or_default();
+        if !last.starts_with("Ok") {
+            acc.fail(json!({"kind":"params","long_interleaved":n}), format!("last call of the long history gave {}", last));
+            return;
+        }
+        acc.sample(|| json!({"histories": 2, "pictures_each": n + 2, "schedule": "strict alternation of calls on one thread"}));
+    })
+}
+
 pub fn cfg_for(tier: Tier) -> PicCfg {
     match tier {
-        Tier::Quick => PicCfg { max_dim: 64, max_fixed_mbs: 48, budget: 400, extreme_aspect: false, ..PicCfg::quick() },
-        Tier::Thorough => PicCfg { max_dim: 128, max_fixed_mbs: 99, budget: 600, ..PicCfg::thorough() },
+        Tier::Quick => PicCfg { max_dim: 64, max_fixed_mbs: 396, budget: 400, extreme_aspect: false, ..PicCfg::quick() },
+        Tier::Thorough => PicCfg { max_dim: 128, max_fixed_mbs: 396, budget: 600, ..PicCfg::thorough() },
     }
 }
 
@@ -304,6 +367,7 @@ pub fn run(ctx: &Ctx) -> i32 {
         }
         acc.sample(|| json!({"scanned": ["/repo/h263/src", "/repo/yuv/src", "/repo/deblock/src"], "looked_for": ["unsafe", "static mut", "thread_local!"]}));
     }));
+    reports.push(long_interleaved_suite(ctx.tier.pick(40_000usize, 140_000usize)));
     let collected = std::sync::Mutex::new(Vec::new());
     let cases = ctx.tier.pick(25_000u64, 300_000u64);
     {
@@ -365,6 +429,10 @@ pub fn replay(suite: &str, case: &Value) -> Option<Verdict> {
             let tier = if case["tier"].as_str() == Some("thorough") { Tier::Thorough } else { Tier::Quick };
             Some(group_case(&mut Gen::new(&super::tape_of(case)?), &cfg_for(tier), None))
         }
+        "long_interleaved_histories" => Some(match long_interleaved_suite(case["long_interleaved"].as_u64()? as usize).failure {
+            Some(f) => Verdict::fail(f.msg),
+            None => Verdict::pass(true, 0),
+        }),
         "second_process" => {
             // recompute here (this IS another process than the one that recorded the digest)
             let grp = &case["group"][0];
